@@ -187,3 +187,181 @@ theorem planVsys_shape (diff : Differ) (a b : Vsys) :
   ⟨_, _, _, rfl, transferCmds_kind _, removeCmds_kind _, rfl, rfl, rfl⟩
 
 end NA.PanOs
+
+namespace NA.PanOs
+
+/-! ### The rule part of the plan only holds rule / member requests -/
+
+def ExtR (st st' : St) : Prop := ∃ cs, st'.out = st.out ++ cs ∧ ∀ c ∈ cs, c.isRuleCmd = true
+
+theorem ExtR.refl (st : St) : ExtR st st := ⟨[], by simp, by simp⟩
+
+theorem ExtR.trans {a b c : St} (h₁ : ExtR a b) (h₂ : ExtR b c) : ExtR a c := by
+  obtain ⟨c1, e1, m1⟩ := h₁
+  obtain ⟨c2, e2, m2⟩ := h₂
+  refine ⟨c1 ++ c2, by rw [e2, e1, List.append_assoc], ?_⟩
+  intro x hx
+  rcases List.mem_append.mp hx with h | h
+  · exact m1 x h
+  · exact m2 x h
+
+theorem Ext.toR {a b : St} (h : Ext a b) : ExtR a b := by
+  obtain ⟨cs, e, m⟩ := h
+  exact ⟨cs, e, fun c hc => by simp [Cmd.isRuleCmd, m c hc]⟩
+
+theorem ExtR.of_out_eq {a b : St} (h : b.out = a.out) : ExtR a b := ⟨[], by simp [h], by simp⟩
+
+theorem foldl_extR {β : Type} (f : St → β → St) (hf : ∀ s x, ExtR s (f s x)) :
+    ∀ (l : List β) (s : St), ExtR s (l.foldl f s) := by
+  intro l
+  induction l with
+  | nil => intro s; exact ExtR.refl s
+  | cons x xs ih => intro s; exact (hf s x).trans (ih _)
+
+theorem rulePhase1_extR (diff : Differ) (fuel : Nat) (a b : Vsys) (aRules bRules : List Rule) :
+    ∀ (rs : List Range) (acc : St × Nat × List InsGroup),
+      ExtR acc.1 (rs.foldl (fun (acc : St × Nat × List InsGroup) r =>
+        let (st, delIdx, inserts) := acc
+        match r.kind with
+        | .del =>
+          (st.emitAll ((aRules.extract r.lowA r.highA).map (fun ru => Cmd.delRule ru.name)), r.highA, inserts)
+        | .ins =>
+          let aPos := max r.lowA delIdx
+          let anchor := (aRules[aPos]?).map (·.name)
+          (st, delIdx, inserts ++ [⟨anchor, r.lowB, r.highB⟩])
+        | .eq =>
+          let st := (List.range (r.highA - r.lowA)).foldl (fun st k =>
+            equalize diff fuel st (aRules.getD (r.lowA + k) default) (bRules.getD (r.lowB + k) default)) st
+          (st, delIdx, inserts)) acc).1 := by
+  intro rs
+  induction rs with
+  | nil => intro acc; exact ExtR.refl _
+  | cons r rs ih =>
+    intro acc
+    obtain ⟨st, d, ins⟩ := acc
+    simp only [List.foldl_cons]
+    refine ExtR.trans ?_ (ih _)
+    split
+    · refine ⟨_, rfl, ?_⟩
+      intro c hc
+      obtain ⟨ru, _, rfl⟩ := List.mem_map.mp hc
+      rfl
+    · exact ExtR.refl _
+    · exact foldl_extR _ (fun s k => (equalize_ext diff fuel s _ _).toR) _ _
+
+theorem ExtR.emit (st : St) (c : Cmd) (h : c.isRuleCmd = true) : ExtR st (st.emit c) :=
+  ⟨[c], rfl, by simpa using h⟩
+
+theorem rulePhase2_extR (bRules : List Rule) (inserts : List InsGroup) (st : St) :
+    ExtR st (rulePhase2 st bRules inserts) := by
+  unfold rulePhase2
+  apply foldl_extR
+  intro s g
+  apply foldl_extR
+  intro s ru
+  have h1 := adaptGroups_out s ru.src
+  revert h1
+  generalize adaptGroups s ru.src = r1
+  obtain ⟨src, s1⟩ := r1
+  intro h1
+  simp only at h1 ⊢
+  have h2 := adaptGroups_out s1 ru.dst
+  revert h2
+  generalize adaptGroups s1 ru.dst = r2
+  obtain ⟨dst, s2⟩ := r2
+  intro h2
+  simp only at h2 ⊢
+  have hs : ExtR s s2 := ExtR.of_out_eq (h2.trans h1)
+  split
+  · exact hs.trans ((ExtR.emit _ _ rfl).trans (ExtR.emit _ _ rfl))
+  · exact hs.trans (ExtR.emit _ _ rfl)
+
+theorem planState_out_kind (diff : Differ) (a b : Vsys) :
+    ∀ c ∈ (planState diff a b).out, c.isRuleCmd = true := by
+  unfold planState diffRules rulePhase1
+  simp only
+  generalize diff _ _ _ = rs
+  have h0 : (markObjects (planFuel (sortVsys a) (sortVsys b))
+      (initSt (sortVsys a) (sortVsys b)
+        (uniqNames ((sortVsys a).groups.map (·.name)) ((sortVsys b).groups.map (·.name))))
+      (sortVsys b).rules).out = [] := by
+    rw [markObjects_out]; rfl
+  have h1 := rulePhase1_extR diff (planFuel (sortVsys a) (sortVsys b)) (sortVsys a) (sortVsys b) (sortVsys a).rules
+    (((sortVsys b).rules.zip (uniqNames (ruleNames (sortVsys a).rules) (ruleNames (sortVsys b).rules))).map
+      (fun (r, n) => { r with name := n })) rs
+    (markObjects (planFuel (sortVsys a) (sortVsys b))
+      (initSt (sortVsys a) (sortVsys b)
+        (uniqNames ((sortVsys a).groups.map (·.name)) ((sortVsys b).groups.map (·.name))))
+      (sortVsys b).rules, 0, [])
+  revert h1
+  generalize (rs.foldl _ _) = res
+  obtain ⟨s, d, ins⟩ := res
+  intro h1
+  simp only at h1 ⊢
+  obtain ⟨cs, e, m⟩ := h1.trans (rulePhase2_extR _ ins s)
+  rw [e, h0]
+  simpa using m
+
+/-! ### Go maps -/
+
+theorem lastIdxFrom_spec (n : String) : ∀ (l : List String) (k : Nat) (acc : Option Nat) (i : Nat),
+    lastIdxFrom n l k acc = some i → acc = some i ∨ (k ≤ i ∧ l[i - k]? = some n) := by
+  intro l
+  induction l with
+  | nil => intro k acc i h; exact Or.inl (by simpa [lastIdxFrom] using h)
+  | cons x xs ih =>
+    intro k acc i h
+    simp only [lastIdxFrom] at h
+    rcases ih (k + 1) _ i h with h1 | ⟨h1, h2⟩
+    · split at h1
+      · rename_i hx
+        simp only [Option.some.injEq] at h1
+        subst h1
+        exact Or.inr ⟨Nat.le_refl _, by simpa using hx⟩
+      · exact Or.inl h1
+    · refine Or.inr ⟨by omega, ?_⟩
+      have : i - k = (i - (k + 1)) + 1 := by omega
+      rw [this]
+      simpa using h2
+
+theorem lastIdx_spec {names : List String} {n : String} {i : Nat} (h : lastIdx names n = some i) :
+    names[i]? = some n := by
+  rcases lastIdxFrom_spec n names 0 none i h with h | ⟨_, h⟩
+  · cases h
+  · simpa using h
+
+theorem vsysMap_mem {vs : List Vsys} {n : String} {v : Vsys} (h : vsysMap vs n = some v) :
+    v ∈ vs ∧ v.name = n := by
+  unfold vsysMap at h
+  cases hi : lastIdx (vs.map (·.name)) n with
+  | none => simp [hi] at h
+  | some i =>
+    simp only [hi, Option.bind_some] at h
+    have hn := lastIdx_spec hi
+    rw [List.getElem?_map, h] at hn
+    exact ⟨List.mem_of_getElem? h, by simpa using hn⟩
+
+end NA.PanOs
+
+namespace NA.PanOs
+
+/-- What the planner may assume about `myers.Diff` (DESIGN.md 5.1): whatever the two lengths
+and the `Equal` method, the script is valid and normalised. -/
+def GoodDiffer (diff : Differ) : Prop :=
+  ∀ n m eq, validScript eq n m (diff n m eq) = true ∧ normalised (diff n m eq) = true
+
+theorem newRuleNames_length (a b : Vsys) : (newRuleNames a b).length = b.rules.length := by
+  simp [newRuleNames, uniqNames_length, ruleNames]
+
+theorem ruleScript_good (diff : Differ) (hd : GoodDiffer diff) (a b : Vsys) :
+    ∃ eq, validScript eq (ruleNames a.rules).length (newRuleNames a b).length (ruleScript diff a b) = true ∧
+      normalised (ruleScript diff a b) = true := by
+  have hA : (ruleNames a.rules).length = (sortVsys a).rules.length := by simp [sortVsys, ruleNames]
+  have hB : (newRuleNames a b).length =
+      (((sortVsys b).rules.zip (uniqNames (ruleNames (sortVsys a).rules)
+        (ruleNames (sortVsys b).rules))).map (fun (r, n) => { r with name := n })).length := by
+    simp [newRuleNames, uniqNames_length, ruleNames, sortVsys]
+  rw [hA, hB]
+  exact ⟨_, hd _ _ _⟩
+
+end NA.PanOs
